@@ -209,9 +209,15 @@ def gen_case(prop, seed, tier):
         cutoff = 1.0  # everything (also nested sub-contractions) takes the hyper route
     nthreads = sw.choice([1, 2, 2, 3, 3])
     threads = []
+    # swarm: some runs have all threads ask about the same one or two contractions at the same time (first use of a
+    # shared cache entry from several threads at once)
+    focus = sw.choice([None, None, 1, 2])
     for t in range(nthreads):
         vias = ["search", "search", "call"] + (["contract", "contract"] if kind.startswith("preset:") else [])
-        qs = [{"q": sw.randrange(len(pool)), "via": sw.choice(vias)} for _ in range(sw.randint(1, 4))]
+        if focus and kind.startswith("preset:"):
+            vias = ["contract", "contract", "contract", "search", "call"]
+        qs = [{"q": (sw.randrange(focus) if focus and sw.random() < 0.8 else sw.randrange(len(pool))), "via": sw.choice(vias)}
+              for _ in range(sw.randint(1, 4))]
         threads.append({"queries": qs, "start_after": None, "ident": 1000 + t})
     # ident reuse: a late thread that starts after another exited and inherits its ident
     if nthreads >= 2 and sw.random() < 0.4:
@@ -223,9 +229,16 @@ def gen_case(prop, seed, tier):
            "methods": sw.choice([["greedy"], ["random-greedy"], ["greedy", "labels"], ["sim-nested"], ["sim-nested", "greedy"]]),
            "max_time": sw.choice([None, None, "rate:1e6", "rate:1e9"]),
            "directory": sw.random() < 0.4, "overwrite": sw.choice([False, False, True, "improved"]),
-           "reconf": sw.random() < 0.5, "path_cache": sw.random() < 0.5}
+           "reconf": sw.random() < 0.5, "path_cache": sw.random() < 0.5,
+           # the shared optimizer farms its trials out to a thread pool whose tasks are further simulated threads
+           "pool_workers": None if kind.startswith("preset:") else sw.choice([None, None, 2, 3])}
     sched = {"sampler": sw.choice(["walk", "walk", "pct"]), "p": sw.choice([0.02, 0.05, 0.1, 0.3, 0.6]),
              "depth": sw.randint(1, 3), "seed": sw.randrange(2 ** 31), "est_steps": sw.choice([100, 400, 1500]), "choices": None}
+    if cfg["pool_workers"]:
+        sched["sampler"] = "walk"
+        if "sim-nested" in cfg["methods"]:
+            # a trial that queries the optimizer again would wait, inside a pool task, for tasks queued behind itself
+            cfg["methods"] = ["greedy", "random-greedy"]
     return {"seed": seed, "pool": pool, "cfg": cfg, "threads": threads, "sched": sched, "tick": sw.choice([1e-4, 1e-3, 1e-2]),
             "args_mode": sw.choice(["fresh", "fresh", "shared-mutable"]),
             # disk fault: one store of a directory-backed cache fails with ENOSPC (the query may fail; later ones must be right)
@@ -235,14 +248,14 @@ def gen_case(prop, seed, tier):
 # ---------------------------------------------------------------------------
 
 
-def _make_shared(ctg, cfg, scratch):
+def _make_shared(ctg, cfg, scratch, parallel=False):
     from cotengra.presets import AutoHQOptimizer, AutoOptimizer
 
     kind = cfg["kind"]
     if kind.startswith("preset:"):
         return kind.split(":", 1)[1]
     hk = dict(max_repeats=cfg["max_repeats"], optlib="random", methods=list(cfg["methods"]), max_time=cfg["max_time"],
-              parallel=False, seed=cfg["opt_seed"])
+              parallel=parallel, seed=cfg["opt_seed"])
     if kind.startswith("auto"):
         cls = AutoHQOptimizer if kind.startswith("autohq") else AutoOptimizer
         kw = dict(hk)
@@ -254,7 +267,7 @@ def _make_shared(ctg, cfg, scratch):
     from cotengra.pathfinders.path_basic import ReusableRandomGreedyOptimizer
 
     return ReusableRandomGreedyOptimizer(directory=directory, overwrite=cfg["overwrite"], max_repeats=cfg["max_repeats"],
-                                         seed=cfg["opt_seed"], parallel=False)
+                                         seed=cfg["opt_seed"], parallel=parallel)
 
 
 def _reset_process_globals():
@@ -322,7 +335,7 @@ def run_case(prop, case):
         chooser = simthreads.PCTChooser(random.Random(sc["seed"]), len(case["threads"]), sc["depth"], sc["est_steps"])
     counters["sampler:" + ("replay" if sc.get("choices") is not None else sc["sampler"])] += 1
     counters["kind:" + kind] += 1
-    sched = simthreads.Scheduler(chooser, _whitelist)
+    sched = simthreads.Scheduler(chooser, _whitelist, max_points=2_000_000 if cfg.get("pool_workers") else 200000, max_yields=100_000)
     answers = []  # (thread, k, q index, via, answer or exception)
     cur_query = {}
     fault_hit = set()  # (thread, query) during which the injected disk error fired
@@ -337,7 +350,12 @@ def run_case(prop, case):
             warnings.simplefilter("ignore")
             _reset_process_globals()
             prng.reseed_globals(prng.H(case["seed"], "threads"))
-            shared = _make_shared(ctg, cfg, scratch)
+            parallel = False
+            if cfg.get("pool_workers"):
+                parallel = simthreads.PreemptivePool(sched, cfg["pool_workers"])
+                clk.sleep_hook = lambda: sched.yield_now(sched.index_of_current())
+                counters["probe:trials_in_thread_pool"] += 1
+            shared = _make_shared(ctg, cfg, scratch, parallel)
             if case.get("disk_error_op") is not None:
                 # counted from the first mutating call made on behalf of a query
                 fsim.error_at = {len(fsim.ops) + int(case["disk_error_op"])}
@@ -498,6 +516,7 @@ def run_case(prop, case):
         counters["probe:ident_reused"] += 1
         faults["ident_reuse"] += 1
     counters["preemption_points"] += sched.points
+    counters["polling_yields"] += sched.yields
     log.add("schedule", simthreads.segments(sched.trace))
     log.add("violations", [(v["oracle"], v["detail"]) for v in violations])
     if sched.switches or nq >= 2:
@@ -534,8 +553,12 @@ def minimise(prop, case, v):
         except Exception:
             return None
 
+    import time as _time
+
+    t_end = _time.time() + 120.0  # wall budget of the minimiser only (stuck candidates cost a second or more each)
+
     def fails(c):
-        if budget[0] <= 0:
+        if budget[0] <= 0 or _time.time() > t_end:
             return False
         r = run(c)
         return r is not None and any(violation_class(x) == cls for x in r["violations"])
